@@ -12,7 +12,8 @@ RULE = ('hypothesis: directions = random density matrices (full / low rank), ran
         'arbitrary parameters theta ~ N(0,s^2), s in {0.1,1,10} (no optimiser) and CHABoundaryBagging.solve on (2,2); SDP boundaries for k=1..3 with PPT / bosonic flags '
         'called in generated orders (the irrep data is memoised). Oracle: eigenvalues just inside / outside the reported boundary (delta=1e-6) with own partial transpose, '
         'explicit interpolation formula, membership of inner-model states in every outer set, explicit convex combination of product projectors, ordering of the boundary '
-        'lengths within the solver tolerance 1e-4. Non-trivial = generic direction and (for models / ordering) k>=2; distinct = (sub-check, dims, k, flags, batch).')
+        'lengths within the solver tolerance 1e-4. Non-trivial = generic direction and (for models / ordering) k>=2; distinct = (sub-check, dims, k, flags, batch).'
+        " The CHA object is solved a second time for another direction without re-initialisation; SDP verdicts that come with a solver warning 'inaccurate' are inconclusive for the outside-fails clause.")
 ASSUMPTIONS = ['SDP values are accurate to about 1e-5 in this image (CLARABEL/SCS); orderings are judged at 1e-4',
                'CHABoundaryBagging: a cvxpy SolverError (no ECOS here) is inconclusive; only returned decompositions are judged',
                'the k=1 extension boundary is the state-space boundary']
